@@ -141,6 +141,22 @@ out:
 	return evt_name;
 }
 
+/*
+ * A diff event carries the difference of two readings (modulo 2^64): it can be
+ * negative (e.g. memory was released), so print it as a signed number.
+ */
+static const char *event_num(char *buf, size_t len, uint64_t val, bool is_diff, bool verbose)
+{
+	if (!is_diff)
+		snprintf(buf, len, "%" PRIu64, val);
+	else if (verbose)
+		snprintf(buf, len, "%+" PRId64, (int64_t)val);
+	else
+		snprintf(buf, len, "%" PRId64, (int64_t)val);
+
+	return buf;
+}
+
 /**
  * event_get_data_str - convert event data to a string
  * @handle - handle to uftrace data
@@ -157,8 +173,10 @@ char *event_get_data_str(struct uftrace_data *handle, unsigned evt_id, void *dat
 			 struct uftrace_symbol *sym, bool verbose)
 {
 	char *str = NULL;
-	const char *diff = "";
+	bool is_diff = false;
 	char vbuf[128];
+	char nbuf[3][32];
+#define NUM(i, val) event_num(nbuf[i], sizeof(nbuf[i]), val, is_diff, verbose)
 	union {
 		struct uftrace_proc_statm statm;
 		struct uftrace_page_fault pgfault;
@@ -178,35 +196,30 @@ char *event_get_data_str(struct uftrace_data *handle, unsigned evt_id, void *dat
 		break;
 
 	case EVENT_ID_DIFF_PROC_STATM:
-		if (verbose)
-			diff = "+";
+		is_diff = true;
 		/* fall through */
 	case EVENT_ID_READ_PROC_STATM:
 		memcpy(&u.statm, data, sizeof(u.statm));
-		xasprintf(&str,
-			  "vmsize=%s%" PRIu64 "KB vmrss=%s%" PRIu64 "KB shared=%s%" PRIu64 "KB",
-			  diff, u.statm.vmsize, diff, u.statm.vmrss, diff, u.statm.shared);
+		xasprintf(&str, "vmsize=%sKB vmrss=%sKB shared=%sKB", NUM(0, u.statm.vmsize),
+			  NUM(1, u.statm.vmrss), NUM(2, u.statm.shared));
 		break;
 
 	case EVENT_ID_DIFF_PAGE_FAULT:
-		if (verbose)
-			diff = "+";
+		is_diff = true;
 		/* fall through */
 	case EVENT_ID_READ_PAGE_FAULT:
 		memcpy(&u.pgfault, data, sizeof(u.pgfault));
-		xasprintf(&str, "major=%s%" PRIu64 " minor=%s%" PRIu64, diff, u.pgfault.major, diff,
-			  u.pgfault.minor);
+		xasprintf(&str, "major=%s minor=%s", NUM(0, u.pgfault.major), NUM(1, u.pgfault.minor));
 		break;
 
 	case EVENT_ID_DIFF_PMU_CYCLE:
-		if (verbose)
-			diff = "+";
+		is_diff = true;
 		/* fall through */
 	case EVENT_ID_READ_PMU_CYCLE:
 		memcpy(&u.cycle, data, sizeof(u.cycle));
-		xasprintf(&str, "cycles=%s%" PRIu64 " instructions=%s%" PRIu64, diff,
-			  u.cycle.cycles, diff, u.cycle.instrs);
-		if (diff[0] == '+') {
+		xasprintf(&str, "cycles=%s instructions=%s", NUM(0, u.cycle.cycles),
+			  NUM(1, u.cycle.instrs));
+		if (is_diff && verbose) {
 			snprintf(vbuf, sizeof(vbuf), "IPC=%.2f",
 				 (float)u.cycle.instrs / u.cycle.cycles);
 			str = strjoin(str, vbuf, " ");
@@ -214,14 +227,12 @@ char *event_get_data_str(struct uftrace_data *handle, unsigned evt_id, void *dat
 		break;
 
 	case EVENT_ID_DIFF_PMU_CACHE:
-		if (verbose)
-			diff = "+";
+		is_diff = true;
 		/* fall through */
 	case EVENT_ID_READ_PMU_CACHE:
 		memcpy(&u.cache, data, sizeof(u.cache));
-		xasprintf(&str, "refers=%s%" PRIu64 " misses=%s%" PRIu64, diff, u.cache.refers,
-			  diff, u.cache.misses);
-		if (diff[0] == '+') {
+		xasprintf(&str, "refers=%s misses=%s", NUM(0, u.cache.refers), NUM(1, u.cache.misses));
+		if (is_diff && verbose) {
 			snprintf(vbuf, sizeof(vbuf), "hit=%.2f%%",
 				 100.0 * (u.cache.refers - u.cache.misses) / u.cache.refers);
 			str = strjoin(str, vbuf, " ");
@@ -229,14 +240,13 @@ char *event_get_data_str(struct uftrace_data *handle, unsigned evt_id, void *dat
 		break;
 
 	case EVENT_ID_DIFF_PMU_BRANCH:
-		if (verbose)
-			diff = "+";
+		is_diff = true;
 		/* fall through */
 	case EVENT_ID_READ_PMU_BRANCH:
 		memcpy(&u.branch, data, sizeof(u.branch));
-		xasprintf(&str, "branch=%s%" PRIu64 " misses=%s%" PRIu64, diff, u.branch.branch,
-			  diff, u.branch.misses);
-		if (diff[0] == '+') {
+		xasprintf(&str, "branch=%s misses=%s", NUM(0, u.branch.branch),
+			  NUM(1, u.branch.misses));
+		if (is_diff && verbose) {
 			snprintf(vbuf, sizeof(vbuf), "predict=%.2f%%",
 				 100.0 * (u.branch.branch - u.branch.misses) / u.branch.branch);
 			str = strjoin(str, vbuf, " ");
@@ -277,6 +287,7 @@ char *event_get_data_str(struct uftrace_data *handle, unsigned evt_id, void *dat
 		break;
 	}
 
+#undef NUM
 	return str;
 }
 
@@ -386,6 +397,7 @@ TEST_CASE(event_data)
 	struct uftrace_data handle = {};
 	struct uftrace_page_fault pgfault = { 1977, 1102 };
 	struct uftrace_pmu_cycle cycle = { 1024, 2048 };
+	struct uftrace_proc_statm shrunk = { (uint64_t)-8, 4, 0 };
 	int cpu = 123;
 	unsigned i;
 
@@ -398,6 +410,7 @@ TEST_CASE(event_data)
 		{ EVENT_ID_PERF_COMM, comm, "comm=\"taskname\"" },
 		{ EVENT_ID_READ_PAGE_FAULT, &pgfault, "major=1977 minor=1102" },
 		{ EVENT_ID_DIFF_PMU_CYCLE, &cycle, "cycles=+1024 instructions=+2048 IPC=2.00" },
+		{ EVENT_ID_DIFF_PROC_STATM, &shrunk, "vmsize=-8KB vmrss=+4KB shared=+0KB" },
 		{ EVENT_ID_WATCH_CPU, &cpu, "cpu=123" },
 	};
 
